@@ -70,6 +70,8 @@ AtomHolds(a, s, P) ==
       [] a.k = "data"   -> HasTokIn(EvOf(s, a.conv), "c", a.tok) \/ HasTokIn(EvOf(s, a.conv), "s", a.tok)
       [] a.k = "ftime"  -> InRange(s.ft, a.lo, a.hi)
       [] a.k = "ltime"  -> InRange(s.lt, a.lo, a.hi)
+      [] a.k = "fteq"   -> s.ft = a.n                  \* a single time instead of a range (ftime:"2022-05-06 020000")
+      [] a.k = "protoself" -> TRUE                     \* the protocol of the stream itself (protocol:@protocol@)
       \* the duration of the stream (ltime:@ftime@+90m:  /  ltime::@ftime@+90m, thresholds between whole hours):
       \* "ge" n: lasts at least n hours, "le" n: lasts less than n hours
       [] a.k = "dur"    -> IF a.tok = "ge" THEN s.lt - s.ft >= a.n ELSE s.lt - s.ft < a.n
